@@ -51,7 +51,8 @@ TRUSTED = [
 ASSUMPTIONS = [
     "classes are importable by name in the unpickling process and mapped there; the MetaData given to the Deserializer "
     "contains the tables the statement names",
-    "table / column / property names contain no ':' and no newline (otherwise the serializer is refuted, see findings)",
+    "column / property keys (and keys of tables referenced through a column) contain no ':' (otherwise the serializer "
+    "is refuted, finding C51-serializer-colon-in-name; newlines are fine since /repo 973ce94)",
 ]
 ANCHORS = [
     ("lib/sqlalchemy/orm/state.py", "InstanceState.__getstate__"),
@@ -963,9 +964,11 @@ LEVEL_TEXT = (
     "current source are extracted from the AST on every run and the side condition is discharged by vm_compute; (2) "
     "PathRegistry.serialize/deserialize = identity on all alternating paths up to replacing aliased classes by their "
     "mappers (refuted for aliases, guarded otherwise); (3) Row / CursorResultMetaData and FrozenResult / "
-    "SimpleResultMetaData: data, keys and string/int key lookups are preserved, lookups by Column objects are lost; (4) "
+    "SimpleResultMetaData: data, keys and every string key lookup (incl. Column.key and table_column aliases, since /repo "
+    "dd3ca1b) are preserved, lookups by Column objects are lost; (4) "
     "ext.serializer: loads(dumps(stmt)) = stmt for every statement tree whose persistent objects exist in the target "
-    "environment and whose names contain no ':' / newline - refuted otherwise (two known findings)."
+    "environment and whose column/property keys contain no ':' - refuted otherwise (one known finding; the newline "
+    "and frozen-alias findings are fixed and kept as revert witnesses)."
 )
 LEVEL_NOTE = (
     "Outside the proof: the pickle byte format, class import by name, the nested __getstate__ methods of attribute "
